@@ -197,6 +197,16 @@ func (m *UDPMuxDefault) GetConn(ufrag string, addr net.Addr) (net.PacketConn, er
 	}
 
 	muxedConn, ok := m.getConn(ufrag, isIPv6)
+	if ok {
+		// The last handle of that connection may just have been closed while
+		// its watcher has not unregistered it yet: never hand out a closed
+		// connection, replace it.
+		select {
+		case <-muxedConn.CloseChannel():
+			ok = false
+		default:
+		}
+	}
 	if !ok {
 		muxedConn = m.createMuxedConn(ufrag)
 		go func() {
